@@ -14,7 +14,7 @@ func init() {
 }
 
 func runC08(p *core.Prog, r *core.Report) {
-	r.Explain = "Decides the engine-level structure that makes a rejected tombstone harmless, on all CFG paths of StorageEngine.broadcastObject (used for TOMBSTONE, LOCK and LINK): (R1) a shard is recorded as having accepted the object only after putToShard returned nil or 'already exists'; (R2) the broadcast is declared fatal exactly for the verdicts {lock of a non-regular object, object is locked, already removed}, and a fatal verdict ends the loop; (R3) after a fatal verdict the object is deleted again from EVERY shard recorded as having accepted it (the rollback loop ranges over the whole list and addresses the broadcast object itself), and (R4) success is reported only when the broadcast was not fatal and at least one shard accepted. The per-shard protection (a tombstone is refused while a live lock exists; GC and expiry respect locks) is decided by C07. Observation, not a rule and not a finding for this property: the rollback removes the tombstone object but not the garbage marks it had written for its targets on that shard — confirmed with a scratch scenario (lock missed one shard, tombstone accepted there, rejected elsewhere, rolled back: the shard keeps 'marked as garbage' for the locked object); in every history tried the locked object stayed retrievable through the engine, so no violation of this property could be shown and nothing is recorded. Not covered: shard visiting orders, mode flips, evacuation, concurrent broadcasts."
+	r.Explain = "Decides the engine-level structure that makes a rejected tombstone harmless, on all CFG paths of StorageEngine.broadcastObject (used for TOMBSTONE, LOCK and LINK): (R1) a shard is recorded as having accepted the object only after putToShard returned nil or 'already exists'; (R2) the broadcast is declared fatal exactly for the verdicts {lock of a non-regular object, object is locked, already removed}, and a fatal verdict ends the loop; (R3) after a fatal verdict the object is deleted again from EVERY shard recorded as having accepted it (the rollback loop ranges over the whole list and addresses the broadcast object itself), and (R3) success is reported only when the broadcast was not fatal and at least one shard accepted. (R5, shared with C19) evacuation accounts for every listed object whatever its type, so a lock stored only on the drained shard moves with the object it protects. The per-shard protection (a tombstone is refused while a live lock exists; GC and expiry respect locks) is decided by C07. Observation, not a rule and not a finding for this property: the rollback removes the tombstone object but not the garbage marks it had written for its targets on that shard — confirmed with a scratch scenario (lock missed one shard, tombstone accepted there, rejected elsewhere, rolled back: the shard keeps 'marked as garbage' for the locked object); in every history tried the locked object stayed retrievable through the engine, so no violation of this property could be shown and nothing is recorded. Not covered: shard visiting orders, mode flips, evacuation, concurrent broadcasts."
 	bo := p.Func(engT + "broadcastObject")
 	if bo == nil {
 		r.Fatalf("C08: broadcastObject not found")
@@ -178,4 +178,6 @@ func runC08(p *core.Prog, r *core.Report) {
 		r3.Bad(core.FuncName(bo)+"#return-nil", p.Pos(bo.Pos()), "no success return found")
 	}
 	_ = nF
+	// R4: evacuation moves every listed object (shared with C19.R2): a lock that lives only on the drained shard must move with its object
+	evacuationAccountsEveryObject(p, r, "C08.R4")
 }
